@@ -529,7 +529,7 @@ def run(ctx):
         "completion / dtype / finite-ness of the real Calculator: measured on the sweep (quick 40, thorough 274 configurations)",
         "adiabatic gap -> 0 as T -> 0+: proved for the harmonic C_V of the same spectrum (gap_vanishes) and for any C_V with "
         "bounded 1/C_V (gap_vanishes_partial); with the numerically differentiated C_V of qha it is measured (finite where C_V > 0)",
-        "averages and velocities finite where the stiffness is positive definite: measured on the sweep",
+        "averages and velocities: over R proved well defined and strictly positive wherever the stiffness is positive definite (averages_and_velocities_well_defined: no Reuss denominator vanishes, both radicands positive); binary64 finite-ness measured on the sweep",
     ]
     ctx.assumptions += ["positive non-acoustic frequencies, Rsum w <> 0, 3 na modes per q-point, c_hdk > 0 (theorems over R)"]
 
